@@ -271,28 +271,30 @@ Ltac split_forall :=
          | |- Forall _ (_ :: _) => apply Forall_cons
          | |- Forall _ [] => apply Forall_nil
          end.
+Lemma Ok_inj {A} (a b : A) : Ok a = Ok b -> a = b.
+Proof. congruence. Qed.
 Lemma utf8_1_bytes c b : utf8_1 c = Ok b -> is_bytes b.
 Proof.
   unfold utf8_1, is_bytes. intros H.
   destruct (c <? 128) eqn:E1.
-  { injection H as <-. apply N.ltb_lt in E1. split_forall; cbn beta; lia. }
+  { apply Ok_inj in H; subst b. apply N.ltb_lt in E1. split_forall; lazy beta; lia. }
   destruct (c <? 2048) eqn:E2.
-  { injection H as <-. apply N.ltb_lt in E2.
+  { apply Ok_inj in H; subst b. apply N.ltb_lt in E2.
     assert (c / 64 < 32) by (apply N.div_lt_upper_bound; lia).
     pose proof (N.mod_lt c 64 ltac:(lia)).
-    split_forall; cbn beta; lia. }
+    split_forall; lazy beta; lia. }
   destruct ((55296 <=? c) && (c <=? 57343)); [discriminate|].
   destruct (c <? 65536) eqn:E3.
-  { injection H as <-. apply N.ltb_lt in E3.
+  { apply Ok_inj in H; subst b. apply N.ltb_lt in E3.
     assert (c / 4096 < 16) by (apply N.div_lt_upper_bound; lia).
     pose proof (N.mod_lt (c / 64) 64 ltac:(lia)). pose proof (N.mod_lt c 64 ltac:(lia)).
-    split_forall; cbn beta; lia. }
+    split_forall; lazy beta; lia. }
   destruct (c <? 1114112) eqn:E4; [|discriminate].
-  injection H as <-. apply N.ltb_lt in E4.
+  apply Ok_inj in H; subst b. apply N.ltb_lt in E4.
   assert (c / 262144 < 5) by (apply N.div_lt_upper_bound; lia).
   pose proof (N.mod_lt (c / 4096) 64 ltac:(lia)). pose proof (N.mod_lt (c / 64) 64 ltac:(lia)).
   pose proof (N.mod_lt c 64 ltac:(lia)).
-  split_forall; cbn beta; lia.
+  split_forall; lazy beta; lia.
 Qed.
 Lemma utf8_bytes s b : utf8 s = Ok b -> is_bytes b.
 Proof.
